@@ -1,6 +1,9 @@
 package props
 
 import (
+	"os"
+
+	"github.com/form3tech-oss/f1/v2/pkg/f1"
 	"context"
 	"fmt"
 
@@ -111,6 +114,11 @@ func init() {
 					p.Spec = engine.RateSpec(mode, T, 10, c)
 					tickClass = fmt.Sprintf("tick=%d", T)
 				}
+				if c <= 2 && p.Body == "sleep" && N > 3000 && p.Spec.Mode != "file" {
+					// two sleeping workers under the race detector and perturbation do ~200 iterations/s
+					N = 3000
+					p.N = N
+				}
 				p.Spec.MaxIterations = N
 				p.Spec.IgnoreDropped = true
 				p.Desc = fmt.Sprintf("mode=%s N=%d c=%d %s body=%s", mode, N, c, tickClass, p.Body)
@@ -139,6 +147,18 @@ func init() {
 				cse.TimeoutMS = 60000
 				cs = append(cs, cse)
 			}
+			// the limit given on the real command line (flags and config file), next to other limits with different values
+			ncli := 9
+			if tier == "thorough" {
+				ncli = 60
+			}
+			for i := 0; i < ncli; i++ {
+				p := c03CLIParams{Via: []string{"users", "constant", "file"}[i%3], N: uint64(pick(r, 1, 3, 7, 40)), MaxFailures: pick(r, 0, 2, 11, 1000), Conc: pick(r, 1, 3, 8)}
+				cse := core.MkCase("C03", "cli", i, seed, p)
+				cse.Solo = true
+				cse.TimeoutMS = 60000
+				cs = append(cs, cse)
+			}
 			np := 6
 			if tier == "thorough" {
 				np = 40
@@ -150,7 +170,7 @@ func init() {
 			}
 			return cs
 		},
-		Kinds:  map[string]core.RunFunc{"run": c03Run, "porcupine": c03Porcupine},
+		Kinds:  map[string]core.RunFunc{"run": c03Run, "porcupine": c03Porcupine, "cli": c03CLI},
 		Floors: map[string]int64{"limit_reached_runs": 20, "competed_runs": 10, "ids_checked": 1000},
 	})
 }
@@ -162,9 +182,11 @@ func c03Run(c *core.Case, o *core.Outcome) {
 	l := engine.NewLog()
 	rr := c.Rng("body")
 	salt := rr.Uint64()
+	var lastStart atomic.Int64
 	scenario := func(t *f1testing.T) f1testing.RunFn {
 		return func(t *f1testing.T) {
 			defer k.Enter(t)()
+			lastStart.Store(time.Now().UnixNano())
 			if p.Body == "sleep1ms" {
 				time.Sleep(time.Millisecond)
 				return
@@ -200,6 +222,11 @@ func c03Run(c *core.Case, o *core.Outcome) {
 		o.Violate("far-limit:"+p.Desc, "max-iterations %d is far away but no iteration ran at all in a %d ms run (%s)", p.N, p.Spec.MaxDurationMS, p.Desc)
 		return
 	}
+	if p.MustHit && uint64(S) != p.N && l.Contains("Max Duration Elapsed") && time.Now().UnixNano()-lastStart.Load() < int64(2*time.Second) {
+		// iterations were still being started when the run's duration ended: too slow a machine for this N, not a lost request
+		o.Inconc("the run's max duration ended before the limit: %d of %d iterations, still starting new ones at the end (%s)", S, p.N, p.Desc)
+		return
+	}
 	if p.MustHit && uint64(S) != p.N {
 		o.Violate("exact:"+p.Desc, "trigger kept requesting until the limit stopped it, but the iteration function was invoked %d times, max-iterations %d (%s)", S, p.N, p.Desc)
 		return
@@ -230,6 +257,77 @@ func c03Run(c *core.Case, o *core.Outcome) {
 	}
 	o.MaxObs("max:high_water", k.HighWater.Load())
 	o.Sample = map[string]any{"case": p.Desc, "started": S, "high_water": k.HighWater.Load(), "handles": k.Handles(), "wall_ms": (r.TReturn - r.TCall).Milliseconds()}
+}
+
+type c03CLIParams struct {
+	Via         string `json:"via"`
+	N           uint64 `json:"n"`
+	MaxFailures int    `json:"max_failures"`
+	Conc        int    `json:"conc"`
+}
+
+// c03CLI: the real command line with --max-iterations N (or the config file's limits.max-iterations) and a
+// different --max-failures next to it; the run can only end by the limit (30 s duration), so exactly N bodies run.
+func c03CLI(c *core.Case, o *core.Outcome) {
+	var p c03CLIParams
+	c.Params(&p)
+	k := engine.NewTracker()
+	scenario := func(t *f1testing.T) f1testing.RunFn {
+		return func(t *f1testing.T) { defer k.Enter(t)() }
+	}
+	args := []string{"run"}
+	switch p.Via {
+	case "file":
+		y := fmt.Sprintf("scenario: verifScenario\nlimits:\n  max-duration: 30s\n  concurrency: %d\n  max-iterations: %d\n  max-failures: %d\n  ignore-dropped: true\ndefault:\n  distribution: none\n  jitter: 0\nstages:\n- duration: 100ms\n  mode: constant\n  rate: 0/s\n- duration: 20s\n  mode: users\n", p.Conc, p.N, p.MaxFailures)
+		path, err := engine.TempYAML(y)
+		if err != nil {
+			o.Inconc("cannot write yaml: %v", err)
+			return
+		}
+		defer os.Remove(path)
+		args = append(args, "file", path)
+	case "constant":
+		args = append(args, "constant", "-r", fmt.Sprintf("%d/10ms", p.Conc), "--distribution", "none", "-c", fmt.Sprint(p.Conc), "-d", "30s", "-i", fmt.Sprint(p.N), "--max-failures", fmt.Sprint(p.MaxFailures), "--ignore-dropped", "verifScenario")
+	default:
+		args = append(args, "users", "-c", fmt.Sprint(p.Conc), "-d", "30s", "-i", fmt.Sprint(p.N), "--max-failures", fmt.Sprint(p.MaxFailures), "verifScenario")
+	}
+	desc := fmt.Sprintf("via=%s N=%d max-failures=%d c=%d", p.Via, p.N, p.MaxFailures, p.Conc)
+	var err error
+	done := make(chan struct{})
+	go func() {
+		defer close(done)
+		err = f1.New().Add("verifScenario", scenario).ExecuteWithArgs(args)
+	}()
+	select {
+	case <-done:
+	case <-time.After(25 * time.Second):
+		o.Violate("cli-limit-ignored:"+desc, "the command line run did not end by its max-iterations %d within 25 s: %d bodies ran so far (args %v)", p.N, k.Started.Load(), args)
+		return
+	}
+	S := k.Started.Load()
+	o.Events += S + 1
+	o.AddObs("ids_checked", S)
+	o.AddObs("cli_runs", 1)
+	if pr := k.Problems(); len(pr) > 0 {
+		o.Violate("cli-ids:"+desc, "%s (%s)", joinProblems(pr), desc)
+		return
+	}
+	if ok, n, why := k.IDsGapless(); !ok {
+		o.Violate("cli-ids:"+desc, "iteration ids are not exactly 1..%d: %s (%s)", n, why, desc)
+		return
+	}
+	if uint64(S) != p.N {
+		o.Violate("cli-exact:"+desc, "the command line asked for max-iterations %d; the iteration function was invoked %d times (err=%v, args %v)", p.N, S, err, args)
+		return
+	}
+	if err != nil {
+		o.Violate("cli-err:"+desc, "a run of %d passing iterations returned %v (args %v)", S, err, args)
+		return
+	}
+	o.Sig("cli:via=%s:N=%d:maxfail=%d", p.Via, p.N, p.MaxFailures)
+	if o.Sample == nil {
+		o.Sample = map[string]any{"args": args, "started": S}
+	}
 }
 
 // c03Porcupine: concurrent NextIteration histories against a fetch-and-increment model with ceiling.
